@@ -152,7 +152,19 @@ def run_family(ctx, pid):
                                        for h in c["hooks"]))
     failstop = [c for c in rest if is_failstop(c)]
     rest = [c for c in rest if not is_failstop(c)]
-    plain = rest[:(70 if quick else 600)] + failstop[:(60 if quick else 600)] + meet
+    # one failing hook awaited where it is triggered, at every trigger point of the catalogue, critical and not:
+    # the base line of C09 at every moment and weight sign
+    single, seen_pts = [], set()
+    for c in rest:
+        h1 = next(h for h in c["hooks"] if h["id"] == "h1")
+        h2 = next(h for h in c["hooks"] if h["id"] == "h2")
+        key = (h1["tm"], h1["tw"], h1["crit"])
+        if (h1["fails"] and not h2["fails"] and (h1["tm"], h1["tw"]) == (h1["am"], h1["aw"]) and not c["bodyfails"]
+                and c["plan"] == ["START_ACTIVITY", "STOP_ACTIVITY"] and key not in seen_pts):
+            seen_pts.add(key)
+            single.append(c)
+    rest = [c for c in rest if c not in single]
+    plain = rest[:(70 if quick else 600)] + single + failstop[:(60 if quick else 600)] + meet
     # calls whose await point is reached long after their declared timeout
     slow = [c for c in rest if any(h["id"] == "h1" and h["tm"].endswith("START_ACTIVITY") and h["am"] == "after_STOP_ACTIVITY" for h in c["hooks"])
             and c["plan"] == ["START_ACTIVITY", "STOP_ACTIVITY"] and not c["bodyfails"]][:(4 if quick else 16)]
